@@ -445,6 +445,12 @@ def _generic_run(self, cspec, argvals):
     for j in range(cspec.get('nlog', 0)):
         self.logger.info(f'marker {runid} step {j}')
         self.save_to_run_info({'marker': runid, 'n': j + 1})
+    if V.helper_thread_logs(slug):
+        # part of the body's work is done by a helper thread it starts and joins (a pool, parallel_map): what that thread logs belongs to the run
+        import threading
+        th = threading.Thread(target=lambda: self.logger.info(f'marker {runid} helper thread'))
+        th.start()
+        th.join()
     if kind == 'cont':
         # resumable work: steps already present in the kept work directory are not redone
         data = self.get_data_object()
@@ -464,6 +470,9 @@ def _generic_run(self, cspec, argvals):
     if fault and fault[0] == 'mistyped':
         del ST.run_faults[slug]
         ST.fired.append(['runfault', slug, 'mistyped'])
+        if kind in ('gen', 'genlazy') and int(h[:1], 16) < 8:
+            # an iterable that is not a generator (a mapping: iterating it would silently store its keys)
+            return {'alice': 1, 'bob': 2, 'carol': 3}
         return _Mistyped()
     if fault and fault[0] == 'unserializable':
         del ST.run_faults[slug]
